@@ -14,6 +14,7 @@ vars == <<l, vals, now, len, shift, pw>>
 
 R == INSTANCE SegRef
 
+MinTime == (-2147483647 - 1)      \* no query time has been supplied yet: any time may follow
 Rec == ndJsonDeserialize(IOEnv.TRACE)
 Ev  == Rec[l]
 Has(f) == f \in DOMAIN Ev
@@ -43,7 +44,7 @@ OnlyLiveCopies(S, t) ==
         /\ SeqSet(ids) \subseteq {x.id : x \in {x \in S : x.e >= t /\ p \in PlaceTab[<<x.a, x.b>>]}}
 
 StepNew ==
-  /\ vals' = {} /\ now' = 0
+  /\ vals' = {} /\ now' = MinTime
   /\ shift' = Ev.j
   /\ pw' = IF Ev.out = "ok" /\ Ev.built = 1 /\ P(Ev.len) >= 5 THEN Width(Ev.len) ELSE 1
   /\ IF Ev.out # "ok"
@@ -81,7 +82,7 @@ OpOk ==
                    <<"after a complete whole-domain query at", Ev.t, "stored copies", AllCopies>>))
          ELSE Same /\ Breach(<<"query outside the contract", Ev.a, Ev.b, Ev.t, now, len>>)
     [] Ev.op = "clear" ->
-         /\ vals' = {} /\ now' = 0
+         /\ vals' = {} /\ now' = MinTime
          /\ V("CLEARED", Ev.ch = <<>>, <<"copies stored after clear", Ev.ch>>)
     [] Ev.op = "matrix" ->       \* C15: domain [0,31]; row = query ranges c*32+d that yield the value
          /\ Same
@@ -118,7 +119,7 @@ Step ==
        [] Ev.ev = "op" -> StepOp
        [] OTHER -> UNCHANGED <<vals, now, len, shift, pw>> /\ Breach(<<"unknown event", Ev.ev>>)
 
-Init == l = 1 /\ vals = {} /\ now = 0 /\ len = 0 /\ shift = 0 /\ pw = 1
+Init == l = 1 /\ vals = {} /\ now = MinTime /\ len = 0 /\ shift = 0 /\ pw = 1
 Spec == Init /\ [][Step]_vars
 Accepted ==
   IF TLCGet("stats").diameter - 1 = Len(Rec) THEN PrintT(<<"ACCEPTED", Len(Rec)>>)
